@@ -220,8 +220,9 @@ func verifH_Serve() {
 			if s, ok := f.Frame.(*tunnelpb.ServerToClient_Settings); ok {
 				nsettings++
 				verifAssert(f.StreamId == -1, "C11+C13.settings-stream-id")
-				if scenario != 3 {
-					// (in scenario 3 the client double does not wait for the settings before its first RPC)
+				if scenario == 4 || scenario == 5 {
+					// (in the other scenarios the client double starts an RPC without waiting for the
+					// settings, so the handler's frames may overtake the asynchronously sent settings frame)
 					verifAssert(i == 0, "C11+C13.settings-is-the-first-frame")
 				}
 				verifAssert(s.Settings.InitialWindowSize == initialWindowSize, "C06+C11.settings-advertise-the-enforced-window")
